@@ -55,7 +55,7 @@ ENGINES = [
       kind_free_text="rapidcheck stateful generation of API histories, interpreted against the real library and a reference model; ASan+UBSan"),
 ]
 ENGINES.append(dict(name="T", path="harness/threads", serves_properties=["C12"], kind_free_text="rapidcheck-generated thread programs; TSan build (free running) and ASan build (owned / enumerated schedules) through the custom recursive mutex"))
-ENGINES.append(dict(name="S", path="harness/printing", serves_properties=["C18"], kind_free_text="rapidcheck over a closed family of 124 value types x prior stream states, independent renderer"))
+ENGINES.append(dict(name="S", path="harness/printing", serves_properties=["C18"], kind_free_text="rapidcheck over a closed family of 149 value types x prior stream states, independent renderer"))
 ENGINES.append(dict(name="M", path="harness/matchers", serves_properties=["C10"], kind_free_text="rapidcheck matcher trees + exhaustive depth-2 scope, independent evaluator"))
 ENGINES.append(dict(name="R", path="harness/ranges", serves_properties=["C11"], kind_free_text="exhaustive small scope + rapidcheck, independent range oracle"))
 ENGINES.append(dict(name="C8", path="harness/clauses", serves_properties=["C08"], kind_free_text="rapidcheck over 108 literal clause sites, recursive interpreter oracle"))
